@@ -189,7 +189,8 @@ def _scan(ctx, u, f, name, algo, role):
         return out
     sv = SymVal(ctx, f, seed_calls=[(calls[0], ('ptr', base, {'U': 1}))])
     # the candidate: the variable that carries the search result through the skip loop
-    Ls = [(sym, info) for sym, info in sv.loops.items() if single(info['init'] or ()) == ('ptr', base, {'U': 1})]
+    Ls = [(sym, info) for sym, info in sv.loops.items()
+          if single(info['init'] or ()) in (('ptr', base, {'U': 1}), ('int', None, {'U': 1}))]      # (a pointer or an index into the table)
     want_step = {'': 1} if role == 'upper' else {'': -1}
     Lsym = Ls[0][0] if len(Ls) == 1 else None
     ctx.check(Lsym is not None and Ls[0][1]['step'] == want_step, 'C11-sib',
